@@ -615,6 +615,12 @@ def b_inject(tier, seed):
             if plans:
                 plans.append(("newton", "inner"))  # the first nonlinear solve that is not the first one of its time step
             plans.append(("fixed-point", None))
+            # IEEE semantics: from time t_nan on the model's forces are NaN (an excitation table left, a force law out of its
+            # domain); a comparison with NaN is false whichever way a convergence test is written
+            # (Moreau is left out: its step is explicit unless a contact is closed, and a NaN gap closes none - no nonlinear
+            # solve or fixed-point iteration runs that could fail, so the property has nothing to say about that run)
+            if name != "Moreau":
+                plans += [("nan", 0.0), ("nan", 0.2)]
             for kind, kk in plans:
                 cases += 1
                 count = [0]
@@ -643,14 +649,20 @@ def b_inject(tier, seed):
                 if kind == "newton":
                     names["fsolve"] = inj
                 out, err = None, None
-                with npshim.active(False), patched(module, **names), _warnings.catch_warnings(record=True) as w, contextlib.redirect_stdout(io.StringIO()):
+                real_h = sysm.h
+                if kind == "nan":
+                    sysm.h = lambda t, q, u, real_h=real_h, kk=kk: real_h(t, q, u) * (np.nan if t > kk + 1e-12 else 1.0)
+                with npshim.active(False), patched(module, **names), _warnings.catch_warnings(record=True) as w, contextlib.redirect_stdout(io.StringIO()), np.errstate(all="ignore"):
                     _warnings.simplefilter("always")
                     try:
                         solver = cls(sysm, 0.6, 0.01, options=opts)
                         holder["solver"] = solver
                         out = solver.solve()
-                    except (RuntimeError, ValueError, AssertionError) as e:
+                    except (RuntimeError, ValueError, AssertionError, FloatingPointError, np.linalg.LinAlgError) as e:
                         err = e
+                    finally:
+                        if kind == "nan":
+                            del sysm.h  # the instance attribute that shadowed the method
                 msgs = [str(x.message) for x in w]
                 failed_somewhere = bool(injected) if kind == "newton" else True
                 what = f"{name}[{kind}{'' if kk is None else ' #' + str(kk)},continue={cont}]"
@@ -660,6 +672,8 @@ def b_inject(tier, seed):
                 if err is not None:
                     continue  # raising is never silent
                 nret = len(out.t)
+                if kind == "nan" and not cont and not (np.all(np.isfinite(out.q)) and np.all(np.isfinite(out.u))):
+                    failures.append({"what": f"{what}: steps that are not solutions (non-finite state) are returned", "input": {"warnings": msgs[:3]}, "detail": f"{nret} instants returned"})
                 if not cont:
                     own = [m for m in msgs if "injected" not in m]
                     if nret >= nfull:
@@ -671,4 +685,4 @@ def b_inject(tier, seed):
                 else:
                     if not msgs:
                         failures.append({"what": f"{what}: continued without any warning", "input": {}, "detail": ""})
-    return {"cases": cases, "distinct": cases, "failures": failures[:12], "bound": f"3 stepping solvers x continue on/off x (forced failure of nonlinear solve #1..{kmax} | unreachable fixed-point tolerance), bouncing ball with friction, 60 steps"}
+    return {"cases": cases, "distinct": cases, "failures": failures[:12], "bound": f"3 stepping solvers x continue on/off x (forced failure of nonlinear solve #1..{kmax} | unreachable fixed-point tolerance | forces NaN from t = 0 / 0.2 on), bouncing ball with friction, 60 steps"}
